@@ -128,6 +128,7 @@ UN_F_NAMES = ["sin", "cos", "tanh", "exp_c", "log_a", "sqrt_a", "floor", "ceil",
               "lax_round_even", "sign", "abs", "neg", "square", "relu", "gelu", "sigmoid", "softplus", "log_sigmoid", "silu", "elu",
               "leaky_relu", "erf", "relu6", "log1p_a", "expm1_c", "recip_g", "rsqrt_g", "softmax", "log_softmax", "cumsum", "arctan",
               "sinh_c", "cosh_c", "hard_tanh", "celu", "selu", "mish", "isfinite_f"]
+ARANGE_F = [(0.05, 2.0, 0.1), (0.0, 1.0, 0.3), (1.5, -1.0, -0.7), (0.1, 0.75, 0.05)]
 PROMO_NAMES = ["clip_f", "max_f", "min_f", "add_f", "mul_f", "rsub_f", "truediv", "pow_f", "sqrt", "exp", "tanh", "sin", "where_f", "mean", "mean_all",
                "var", "std_all", "cast_div"]
 # open findings (known_findings/C01.json, D19): these lower with the *integer* operand type (clip/maximum/minimum/power against a
@@ -218,6 +219,9 @@ def eval_stmt(s, env):
     if op == "constf":
         # default float dtype (float32, or float64 under x64): explicit float32 constants in double-precision exports are C09's subject
         return jnp.full(tuple(kw["shape"]), kw["v"], jnp.asarray(0.0).dtype)
+    if op == "arange_f":
+        # float-valued jnp.arange with arguments that are not exactly representable in float32; default float dtype
+        return jnp.arange(kw["start"], kw["stop"], kw["step"]) * a[0].reshape(-1)[:1].astype(jnp.asarray(0.0).dtype) if a else jnp.arange(kw["start"], kw["stop"], kw["step"])
     if op == "consti":
         return jnp.full(tuple(kw["shape"]), kw["v"], jnp.int32)
     if op == "const_arr":
@@ -507,7 +511,7 @@ class PB:
             if dt in (I, B) and static(shape):
                 fams += ["promo", "promo"]
         if "shape" in allow and len(shape) >= 1:
-            fams += ["transpose", "reshape", "expand", "slice", "concat", "flip", "bcast", "bcast_in_dim", "pad", "tile", "squeeze", "stack", "swapaxes"]
+            fams += ["transpose", "reshape", "expand", "slice", "concat", "flip", "bcast", "bcast_in_dim", "pad", "tile", "squeeze", "stack", "swapaxes", "arange_f"]
         if "red" in allow and len(shape) >= 1:
             fams += ["red", "red", "argred"]
         if "linalg" in allow and dt == F and len(shape) >= 1:
@@ -631,6 +635,10 @@ class PB:
         if fam == "flip":
             ax = d(st.integers(0, len(shape) - 1))
             return self.emit("flip", [src], dt, shape, {"axis": ax})
+        if fam == "arange_f" and dt == F and static(shape) and numel(shape) > 0:
+            start, stop, step = d(st.sampled_from(ARANGE_F))
+            n = len(np.arange(start, stop, step))
+            return self.emit("arange_f", [src], F, (n,), {"start": start, "stop": stop, "step": step})
         if fam == "bcast" and static(shape):
             tgt = (2,) + tuple(shape) if len(shape) < 3 else None
             cands = [s for s in SHAPES if s != tuple(shape) and bshape(shape, s) == s]
